@@ -289,6 +289,7 @@ func c14DumpReal(m *metrics.Metric) string {
 }
 
 func runC14(c c14Case) *vstat.Failure {
+	vstat.Begin(c)
 	return vstat.Catch(func() *vstat.Failure { return runC14x(c) })
 }
 
